@@ -38,16 +38,19 @@ theorem feed_fuel_mono (G : Grammar) (A : Automaton) (la : Nat) :
               simp only at h ⊢
               exact ih _ h f
 
-/-- the states a reduction pushes stay below `ns` (true of every certified automaton) -/
-def GotoInRange (G : Grammar) (A : Automaton) (la ns : Nat) : Prop :=
-  ∀ s p prior s', s < ns → A.action s la = .reduce p → prior < ns → A.goto prior (G.lhs p) = some s' → s' < ns
+/-- the stack predicate `Q` is kept by every reduction the table prescribes under `la` -/
+def StepClosed (G : Grammar) (A : Automaton) (la : Nat) (Q : List Nat → Prop) : Prop :=
+  ∀ st tl p prior rest s', Q (st :: tl) → A.action st la = .reduce p →
+    List.drop (G.rhs p).length (st :: tl) = prior :: rest → A.goto prior (G.lhs p) = some s' →
+    Q (s' :: prior :: rest)
 
 /-- **Locality.** A local run that does not run out of fuel either shows that the real run on the
-whole stack ends, or hands over to a real stack that is not longer than the unknown part plus one. -/
-theorem sim (G : Grammar) (A : Automaton) (la ns : Nat) (hred : GotoInRange G A la ns) :
-    ∀ (fuel : Nat) (xs ys : List Nat), (∀ x ∈ xs ++ ys, x < ns) → localRun G A la fuel xs ≠ .fuelOut →
+whole stack ends, or hands over to a real stack that is not longer than the unknown part plus one.
+`Q` is any property of stacks that reductions keep (states in range; being a path of the automaton). -/
+theorem sim (G : Grammar) (A : Automaton) (la : Nat) (Q : List Nat → Prop) (hQ : StepClosed G A la Q) :
+    ∀ (fuel : Nat) (xs ys : List Nat), Q (xs ++ ys) → localRun G A la fuel xs ≠ .fuelOut →
       (∀ f, feed G A la (fuel + f) (xs ++ ys) ≠ .fuelOut) ∨
-      (∃ m stack', stack'.length ≤ ys.length + 1 ∧ (xs = [] ∨ ys ≠ []) ∧ (∀ x ∈ stack', x < ns) ∧
+      (∃ m stack', stack'.length ≤ ys.length + 1 ∧ (xs = [] ∨ ys ≠ []) ∧ Q stack' ∧
         ∀ f, feed G A la (fuel + f) (xs ++ ys) = feed G A la (m + f) stack') := by
   intro fuel
   induction fuel with
@@ -92,10 +95,6 @@ theorem sim (G : Grammar) (A : Automaton) (la ns : Nat) (hred : GotoInRange G A 
                 rw [if_neg hle2, hdrop, hd]; simp [hg]
               | some s1 =>
                 right
-                have hsub : ∀ x ∈ prior :: rest, x < ns := by
-                  intro x hx
-                  have : x ∈ ys := List.mem_of_mem_drop (by rw [hd]; exact hx)
-                  exact hr x (by simp [this])
                 refine ⟨n, s1 :: prior :: rest, ?_, ?_, ?_, ?_⟩
                 · have : (prior :: rest).length ≤ ys.length := by
                     rw [← hd]; simp [List.length_drop]
@@ -103,10 +102,8 @@ theorem sim (G : Grammar) (A : Automaton) (la ns : Nat) (hred : GotoInRange G A 
                   omega
                 · right
                   intro hys; rw [hys] at hd; simp at hd
-                · intro x hx
-                  rcases List.mem_cons.mp hx with rfl | hx
-                  · exact hred st p prior _ (hr st (by simp)) hact (hsub prior (by simp)) hg
-                  · exact hsub x hx
+                · rw [hd] at hdrop
+                  exact hQ st (tl ++ ys) p prior rest s1 hr hact hdrop hg
                 · intro f; rw [e]
                   simp only [List.cons_append] at hle2 hdrop
                   simp only [feed, List.cons_append, hact]
@@ -143,17 +140,8 @@ theorem sim (G : Grammar) (A : Automaton) (la ns : Nat) (hred : GotoInRange G A 
                 simp only [List.cons_append] at hle2 hdrop
                 simp only [feed, List.cons_append, hact]
                 rw [if_neg hle2, hdrop]; simp [hg]
-              have hsub : ∀ x ∈ prior :: rest, x < ns := by
-                intro x hx
-                have : x ∈ st :: tl := List.mem_of_mem_drop (by rw [hd]; exact hx)
-                exact hr x (List.mem_append_left _ this)
-              have hr' : ∀ x ∈ (s1 :: prior :: rest) ++ ys, x < ns := by
-                intro x hx
-                rcases List.mem_append.mp hx with hx | hx
-                · rcases List.mem_cons.mp hx with rfl | hx
-                  · exact hred st p prior _ (hr st (by simp)) hact (hsub prior (by simp)) hg
-                  · exact hsub x hx
-                · exact hr x (List.mem_append_right _ hx)
+              have hr' : Q ((s1 :: prior :: rest) ++ ys) :=
+                hQ st (tl ++ ys) p prior (rest ++ ys) s1 hr hact hdrop hg
               rcases ih (s1 :: prior :: rest) ys hr' h with hl | ⟨m, stack', h1, h2, h4, h3⟩
               · left; intro f; rw [hstep]; exact hl f
               · right
@@ -163,12 +151,14 @@ theorem sim (G : Grammar) (A : Automaton) (la ns : Nat) (hred : GotoInRange G A 
                   · exact Or.inr h2
                 · intro f; rw [hstep]; exact h3 f
 
-/-- **`feed` terminates** on every stack of in-range states when every local run from one or two
-in-range states ends within `N` steps. -/
-theorem feed_total (G : Grammar) (A : Automaton) (la N ns : Nat) (hred : GotoInRange G A la ns)
-    (H1 : ∀ s, s < ns → localRun G A la N [s] ≠ .fuelOut)
-    (H2 : ∀ s b, s < ns → b < ns → localRun G A la N [s, b] ≠ .fuelOut) :
-    ∀ (L : Nat) (stack : List Nat), stack.length ≤ L → (∀ x ∈ stack, x < ns) →
+/-- **`feed` terminates** on every stack with the property `Q` (kept by reductions) when the local
+runs from the one-element stacks with `Q` and from the top two states of the longer stacks with `Q`
+end within `N` steps. -/
+theorem feed_total_of (G : Grammar) (A : Automaton) (la N : Nat) (Q : List Nat → Prop)
+    (hQ : StepClosed G A la Q)
+    (H1 : ∀ s, Q [s] → localRun G A la N [s] ≠ .fuelOut)
+    (H2 : ∀ s b rest, Q (s :: b :: rest) → localRun G A la N [s, b] ≠ .fuelOut) :
+    ∀ (L : Nat) (stack : List Nat), stack.length ≤ L → Q stack →
       ∃ fuel, feed G A la fuel stack ≠ .fuelOut := by
   intro L
   induction L with
@@ -183,14 +173,14 @@ theorem feed_total (G : Grammar) (A : Automaton) (la N ns : Nat) (hred : GotoInR
     | cons s tl =>
       cases tl with
       | nil =>
-        rcases sim G A la ns hred N [s] [] (by simpa using hr) (H1 s (hr s (by simp))) with hl | ⟨m, stack', _, h2, _, _⟩
+        rcases sim G A la Q hQ N [s] [] (by simpa using hr) (H1 s hr) with hl | ⟨m, stack', _, h2, _, _⟩
         · exact ⟨N, by simpa using hl 0⟩
         · rcases h2 with h2 | h2
           · cases h2
           · exact absurd rfl h2
       | cons b rest =>
-        rcases sim G A la ns hred N [s, b] rest (by simpa using hr)
-            (H2 s b (hr s (by simp)) (hr b (by simp))) with hl | ⟨m, stack', h1, _, h4, h3⟩
+        rcases sim G A la Q hQ N [s, b] rest (by simpa using hr) (H2 s b rest hr) with
+          hl | ⟨m, stack', h1, _, h4, h3⟩
         · exact ⟨N, by simpa using hl 0⟩
         · have hlen : stack'.length ≤ L := by
             simp only [List.length_cons] at h; omega
@@ -202,5 +192,31 @@ theorem feed_total (G : Grammar) (A : Automaton) (la N ns : Nat) (hred : GotoInR
           have hm := feed_fuel_mono G A la fuel' stack' hf m
           rw [Nat.add_comm m fuel', hm]
           exact hf
+
+/-- the states a reduction pushes stay below `ns` (true of every certified automaton) -/
+def GotoInRange (G : Grammar) (A : Automaton) (la ns : Nat) : Prop :=
+  ∀ s p prior s', s < ns → A.action s la = .reduce p → prior < ns → A.goto prior (G.lhs p) = some s' → s' < ns
+
+theorem stepClosed_inRange {G : Grammar} {A : Automaton} {la ns : Nat} (hred : GotoInRange G A la ns) :
+    StepClosed G A la (fun stack => ∀ x ∈ stack, x < ns) := by
+  intro st tl p prior rest s' hr hact hd hg
+  have hsub : ∀ x ∈ prior :: rest, x < ns := by
+    intro x hx
+    exact hr x (List.mem_of_mem_drop (by rw [hd]; exact hx))
+  intro x hx
+  rcases List.mem_cons.mp hx with rfl | hx
+  · exact hred st p prior _ (hr st (by simp)) hact (hsub prior (by simp)) hg
+  · exact hsub x hx
+
+/-- all-pairs version: `feed` terminates on every stack of in-range states when every local run from
+one or two in-range states ends within `N` steps. -/
+theorem feed_total (G : Grammar) (A : Automaton) (la N ns : Nat) (hred : GotoInRange G A la ns)
+    (H1 : ∀ s, s < ns → localRun G A la N [s] ≠ .fuelOut)
+    (H2 : ∀ s b, s < ns → b < ns → localRun G A la N [s, b] ≠ .fuelOut) :
+    ∀ (L : Nat) (stack : List Nat), stack.length ≤ L → (∀ x ∈ stack, x < ns) →
+      ∃ fuel, feed G A la fuel stack ≠ .fuelOut :=
+  feed_total_of G A la N _ (stepClosed_inRange hred)
+    (fun s hs => H1 s (hs s (by simp)))
+    (fun s b _ hs => H2 s b (hs s (by simp)) (hs b (by simp)))
 
 end GrmVerif.Term
